@@ -637,6 +637,8 @@ def oracle_render(d) -> str:
 
 def oracle(case) -> str:
     kind = case["kind"]
+    if kind == "pkshare":
+        return oracle_pkshare(case)
     if kind == "format":
         return oracle_format(case)
     if kind == "access":
@@ -762,6 +764,8 @@ def execute(case):
     extra = []
     if kind == "history":
         return exec_history(case)
+    if kind == "pkshare":
+        return exec_pkshare(case)
     if kind == "format":
         return exec_format(case)
     if kind == "access":
@@ -852,6 +856,8 @@ def model_line(case) -> str:
     kind = case["kind"]
     if kind == "history":
         return history_line(case)
+    if kind == "pkshare":
+        return pkshare_line(case)
     if kind == "format":
         return format_line(case)
     if kind == "access":
@@ -901,6 +907,8 @@ def model_line(case) -> str:
 
 
 def canon_model(case, reply):
+    if case["kind"] == "pkshare":
+        return " ## ".join(canon_model_tag(x) for x in reply.split(" ## "))
     if case["kind"] == "format":
         return canon_format_reply(reply)
     return canon_model_tag(reply) if case["kind"] in ("parse", "tag") else reply
@@ -1682,6 +1690,84 @@ def gen_access_case(r):
             "probes": probes, "dels": [r.choice(pool) for _ in range(r.randint(0, 2))]}
 
 
+# --------------------------------------------------------------------------------------
+# one caller-owned parser_kwargs dictionary handed to several builders
+# --------------------------------------------------------------------------------------
+
+VALID_POLICIES = ["replace", "ignore", "None", "accumulate", "noop", "drop", "upper", "falsy-accumulate", "falsy-noop",
+                  "partial-upper", "method-drop"]
+
+
+def _pk_entry(case):
+    return {} if case["pk"] == "empty" else {"on_duplicate_attribute": ONDUP[case["pk"]]}
+
+
+def exec_pkshare(case):
+    """every builder gets the SAME dictionary object as parser_kwargs (and its own keyword); each then parses the
+    document. The caller's dictionary must come back from every constructor exactly as it went in."""
+    from bs4 import BeautifulSoup
+    from bs4.builder._htmlparser import HTMLParserTreeBuilder
+    cfg = case["cfg"]
+    pk = _pk_entry(case)
+    before = dict(pk)
+    extra, outs = [], []
+    install_spy()
+    for n, kwp in enumerate(case["kws"]):
+        kw = builder_kwargs(cfg)
+        if kwp != "absent":
+            kw["on_duplicate_attribute"] = ONDUP[kwp]
+        _spy_log.clear()
+        try:
+            with warnings.catch_warnings():
+                warnings.simplefilter("ignore")
+                if case["route"] == "builder":
+                    cls = xmlish_builder_class() if cfg.get("xml") else HTMLParserTreeBuilder
+                    b = cls(parser_kwargs=pk, **kw)
+                    changed = dict(pk) != before
+                    soup = BeautifulSoup(case["markup"], builder=b)
+                else:
+                    soup = BeautifulSoup(case["markup"], "html.parser", parser_kwargs=pk, **kw)
+                    changed = dict(pk) != before
+            outs.append(show_tag(soup.find(True)))
+        except TypeError:
+            changed = dict(pk) != before
+            outs.append("raised TypeError")
+        if changed and not extra:
+            extra.append(("the constructor changed the caller's parser_kwargs dictionary",
+                          f"after builder {n} (keyword {kwp}): {sorted(before)}", f"{sorted(pk)}"))
+    if _spy_log:
+        case["_seen"] = _spy_log[0]
+    return " ## ".join(outs), extra
+
+
+def oracle_pkshare(case):
+    """each builder's configuration is what ITS arguments say: its keyword if passed, else the dictionary's entry as the
+    caller wrote it"""
+    outs = []
+    for kwp in case["kws"]:
+        c = {"kind": "parse", "cfg": dict(case["cfg"], ondup=kwp, pk=case["pk"]), "name": case["name"], "attrs": case["attrs"]}
+        outs.append(oracle(c))
+    return " ## ".join(outs)
+
+
+def pkshare_line(case):
+    m, d, l = cfg_model(case["cfg"])
+    pkt = "-" if case["pk"] == "empty" else ONDUP_MODEL[case["pk"]]
+    kws = ";".join("-" if k == "absent" else ONDUP_MODEL[k] for k in case["kws"])
+    raw = "&".join(f"{tok(k)}={'~' if v is None else tok(v)}" for k, v in case["attrs"]) or "-"
+    return f"c17 pkshare {m} {d} {l} {pkt} {kws} {tok(case['name'])} {raw}"
+
+
+def gen_pkshare_case(r):
+    base = gen_parse_case(r)
+    cfg = {k: v for k, v in base["cfg"].items() if k in ("mva", "dcls", "lcls", "xml")}
+    pols = VALID_POLICIES + ["keep"]
+    # the feature-string route ("html.parser") always gives the HTML flavour: XML-flavoured cases use the builder route
+    return {"kind": "pkshare", "cfg": cfg, "route": "builder" if cfg.get("xml") else r.choice(["builder", "soup"]),
+            "pk": r.choice(["empty", "empty"] + pols), "kws": [r.choice(["absent", "absent"] + pols) for _ in range(r.randint(2, 3))],
+            "name": base["name"], "attrs": base["attrs"], "markup": base["markup"]}
+
+
 def zero_defect_class(case, observed, expected):
     """Does this failing case fall into the class `a number equal to False assigned through HTMLAttributeDict`?
     (Only used to word the report; the defect is marked "fix", not a known finding, so nothing is suppressed.)"""
@@ -1713,6 +1799,8 @@ def nontrivial_key(case):
         return ("dict", case["cls"], json.dumps(case["sets"]))
     if k == "parse":
         return ("parse", json.dumps(case["cfg"]), case["markup"])
+    if k == "pkshare":
+        return ("pkshare", json.dumps(case, sort_keys=True, default=str))
     if k in ("format", "access"):
         return (k, json.dumps(case, sort_keys=True, default=str)) if case["items"] else None
     if k == "history":
@@ -1741,7 +1829,7 @@ def check_cases(ctx: Ctx, stream: str, cases: list):
         if c.pop("_skip", False):
             ctx.count(f"{stream}:skipped-tokenizer-read-other-markup")
             continue
-        if c["kind"] == "parse":
+        if c["kind"] in ("parse", "pkshare"):
             seen = c.pop("_seen", None)
             if seen is None:
                 ctx.count(f"{stream}:no-start-tag-delivered")      # nothing for the property to speak about
@@ -1976,6 +2064,22 @@ def run(ctx: Ctx):
         ctx.count("parse-malformed:dup" if len(set(ks)) < len(ks) else "parse-malformed:nodup")
         ctx.count("parse-malformed:valueless" if any(v is None for _, v in c["attrs"]) else "parse-malformed:all-valued")
 
+    # ---- 5a'. one caller-owned parser_kwargs dictionary handed to several builders in a row ------------------------
+    cases = []
+    al = [["href", "first"], ["class", "a b"], ["href", None], ["href", "third"], ["class", "c"]]
+    for pk in ["empty"] + VALID_POLICIES:
+        for k1 in ["absent"] + VALID_POLICIES:
+            for k2 in ("absent", "ignore", "accumulate"):
+                for route in ("builder", "soup"):
+                    cases.append({"kind": "pkshare", "cfg": {"mva": "default", "dcls": "absent", "lcls": 0}, "route": route, "pk": pk,
+                                  "kws": [k1, k2, "absent"], "name": "a", "attrs": al, "markup": markup_for("a", al)})
+    ctx.exhaustive_parts.append(f"pkshare: {len(cases)} directed sequences (dictionary entry x first keyword x second keyword x route), third builder without keyword")
+    r = ctx.rng("pkshare")
+    cases += [gen_pkshare_case(r) for _ in range(ctx.n(2000, 12000))]
+    for c in cases:
+        ctx.count("pkshare:builders", len(c["kws"]))
+    check_cases(ctx, "pkshare", cases)
+
     # ---- 5b. histories: identical raw values under one builder, lists changed in place ------------------------------
     r = ctx.rng("history")
     cases = directed_history_cases() + [gen_history_case(r) for _ in range(ctx.n(2000, 12000))]
@@ -2029,7 +2133,7 @@ def run(ctx: Ctx):
 def replay(path):
     v = json.load(open(path))
     c = v["case"]
-    if c.get("kind") in ("split", "multi", "dict", "parse", "tag", "history", "format", "access"):
+    if c.get("kind") in ("split", "multi", "dict", "parse", "tag", "history", "format", "access", "pkshare"):
         c = {k: x for k, x in c.items() if k != "line"}
         def human(cc):
             if cc["kind"] == "dict":
@@ -2042,6 +2146,11 @@ def replay(path):
                 return f"{how} attrs={pre!r}"[:300] + "; then " + "; ".join(f"tag[{mk_key(kd)!r}] = {vd!r}"[:80] for kd, vd in cc["sets"])
             if cc["kind"] == "parse":
                 return f"BeautifulSoup({cc['markup']!r}, 'html.parser', options={cc['cfg']!r})"
+            if cc["kind"] == "pkshare":
+                how = "HTMLParserTreeBuilder(parser_kwargs=pk, on_duplicate_attribute=<kw>)" if cc["route"] == "builder" else \
+                    "BeautifulSoup(markup, 'html.parser', parser_kwargs=pk, on_duplicate_attribute=<kw>)"
+                return (f"pk = {{}} with entry {cc['pk']!r}; for kw in {cc['kws']!r} ('absent' = keyword not passed): {how}; "
+                        f"each parses {cc['markup']!r}; options {cc['cfg']!r}")
             if cc["kind"] == "history":
                 out = [f"builder options {cc['cfg']!r}; " + ("ONE builder object for all documents" if cc["reuse"] else "a fresh builder per document")]
                 n = 0
